@@ -58,6 +58,25 @@ let () =
       let (w, p) = split_token (ns ws) in
       Some (show_ns w ^ " | " ^ show_ns p))
 
+(* ---- log model: LR S <l> ; R <k> ; E <lvl> <c...> ; ... *)
+let () =
+  reg "LR" (fun ws ->
+      let cmds = List.filter (fun c -> c <> []) (List.map (fun c -> c) (
+          let rec sp acc cur = function
+            | [] -> List.rev (List.rev cur :: acc)
+            | ";" :: r -> sp (List.rev cur :: acc) [] r
+            | w :: r -> sp acc (w :: cur) r in sp [] [] ws)) in
+      let op = function
+        | "S" :: [ l ] -> SetLevel (z_of_int (int_of_string l))
+        | "R" :: [ k ] -> let k = int_of_string k in Register (if k = 0 then None else Some (n_of_int k))
+        | "E" :: l :: cs -> Emit (z_of_int (int_of_string l), ns cs)
+        | _ -> failwith "LR op" in
+      let ds = lrun linit (List.map op cmds) in
+      let show ((s, l), t) =
+        (match s with SDefault -> "0" | SUser id -> string_of_int (int_of_n id)) ^ " " ^ string_of_int (int_of_z l)
+        ^ " " ^ String.concat "" (List.map (fun c -> Printf.sprintf "%02x" (int_of_n c)) t) in
+      Some ("X " ^ string_of_int (List.length ds) ^ String.concat "" (List.map (fun d -> " | " ^ show d) ds)))
+
 let () =
   try
     while true do
